@@ -1,4 +1,5 @@
 import MJ.Model.Blocks
+import MJ.Model.BlocksSpec
 /-! Line driver for C06: the harness' case line (see `harness/src/bin/c06.rs`) → model result. -/
 open MJ.Blocks
 
@@ -93,11 +94,16 @@ def handle (line : String) : String :=
   let case := (line.splitOn "\t").head!
   let toks := (case.splitOn " ").filter (· ≠ "")
   match (pCase.run toks) with
-  | .error e => s!"{case}\tbad-case:{e}"
+  | .error e => s!"{case}\tbad-case:{e}\tn/a"
   | .ok (env, _) =>
-    match render env [(0, .str "C0")] FUEL 0 with
-    | .ok pieces => s!"{case}\tok:{String.join pieces}"
-    | .error e => s!"{case}\terr:{showErr e}"
+    let showRes (r : Except Err (List String)) : String :=
+      match r with
+      | .ok pieces => s!"ok:{String.join pieces}"
+      | .error e => s!"err:{showErr e}"
+    -- third column: the Lean *specification* (`specRender`) when the case lies in the core
+    -- fragment for which `blocks_refine_spec` is proved
+    let spec := if decide (CoreEnv env) then showRes (specRender env FUEL 0) else "n/a"
+    s!"{case}\t{showRes (render env [(0, .str "C0")] FUEL 0)}\t{spec}"
 
 partial def loop (h : IO.FS.Stream) (out : IO.FS.Stream) : IO Unit := do
   let line ← h.getLine
